@@ -22,6 +22,7 @@ import (
 type cbSite struct {
 	root, via, kind string
 	spawned         bool
+	own             bool // the goroutine that performs this invocation performs it outside every loop: one goroutine per callback
 	held            []string
 }
 
@@ -48,6 +49,7 @@ type cbFrame struct {
 	taint   map[string]string
 	held    map[string]bool
 	spawned bool
+	loops   int // loops entered since the goroutine this frame runs on was started (0 when it was not spawned here)
 	depth   int
 	defers  []string
 }
@@ -163,7 +165,7 @@ func (w *cbWalker) mutexName(fr *cbFrame, e ast.Expr) string {
 	return exprString(e)
 }
 
-func (w *cbWalker) site(fr *cbFrame, kind string, spawned bool) {
+func (w *cbWalker) site(fr *cbFrame, kind string, spawned bool, own bool) {
 	var held []string
 	if !spawned {
 		for m, on := range fr.held {
@@ -173,7 +175,10 @@ func (w *cbWalker) site(fr *cbFrame, kind string, spawned bool) {
 		}
 		sort.Strings(held)
 	}
-	s := cbSite{root: w.root, via: fr.fn, kind: kind, spawned: spawned, held: held}
+	s := cbSite{root: w.root, via: fr.fn, kind: kind, spawned: spawned, own: own, held: held}
+	if old, ok := w.sites[s.String()]; ok && !old.own {
+		return
+	}
 	w.sites[s.String()] = s
 }
 
@@ -201,9 +206,10 @@ func (w *cbWalker) callee(fr *cbFrame, c *ast.CallExpr) *ast.FuncDecl {
 
 // inline walks callee with the origins of the arguments bound to its parameters
 func (w *cbWalker) inline(fr *cbFrame, callee *ast.FuncDecl, args []ast.Expr, spawned bool) {
-	sub := &cbFrame{recv: elRecvName(callee), fn: elRecvType(callee) + "." + callee.Name.Name, taint: map[string]string{}, held: fr.held, spawned: fr.spawned || spawned, depth: fr.depth + 1}
+	sub := &cbFrame{recv: elRecvName(callee), fn: elRecvType(callee) + "." + callee.Name.Name, taint: map[string]string{}, held: fr.held, spawned: fr.spawned || spawned, loops: fr.loops, depth: fr.depth + 1}
 	if spawned {
 		sub.held = map[string]bool{}
+		sub.loops = 0
 	}
 	i := 0
 	if callee.Type.Params != nil {
@@ -233,9 +239,10 @@ func (w *cbWalker) walkFunc(fr *cbFrame, body *ast.BlockStmt) {
 }
 
 func (w *cbWalker) lit(fr *cbFrame, fl *ast.FuncLit, spawned bool) {
-	sub := &cbFrame{recv: fr.recv, fn: fr.fn, taint: fr.taint, held: fr.held, spawned: fr.spawned || spawned, depth: fr.depth}
+	sub := &cbFrame{recv: fr.recv, fn: fr.fn, taint: fr.taint, held: fr.held, spawned: fr.spawned || spawned, loops: fr.loops, depth: fr.depth}
 	if spawned {
 		sub.held = map[string]bool{}
+		sub.loops = 0
 	}
 	w.walkFunc(sub, fl.Body)
 }
@@ -266,7 +273,7 @@ func (w *cbWalker) call(fr *cbFrame, c *ast.CallExpr, spawned bool) {
 	}
 	if k := w.kindOf(fr, fun); k != "" {
 		if _, isCall := fun.(*ast.CallExpr); !isCall {
-			w.site(fr, k, fr.spawned || spawned)
+			w.site(fr, k, fr.spawned || spawned, spawned || (fr.spawned && fr.loops == 0))
 			return
 		}
 	}
@@ -448,7 +455,7 @@ func (w *cbWalker) stmt(fr *cbFrame, st ast.Stmt) {
 			// runs at the end of the function: unlocks in it release then; invocations in it are judged with the
 			// locks held now (deferred unlocks registered earlier run later)
 			saved := cbCopyHeld(fr.held)
-			sub := &cbFrame{recv: fr.recv, fn: fr.fn, taint: fr.taint, held: fr.held, spawned: fr.spawned, depth: fr.depth}
+			sub := &cbFrame{recv: fr.recv, fn: fr.fn, taint: fr.taint, held: fr.held, spawned: fr.spawned, loops: fr.loops, depth: fr.depth}
 			w.walkList(sub, fl.Body.List)
 			for k := range saved {
 				if !fr.held[k] {
@@ -488,7 +495,9 @@ func (w *cbWalker) stmt(fr *cbFrame, st ast.Stmt) {
 			w.stmt(fr, x.Init)
 		}
 		w.expr(fr, x.Cond)
+		fr.loops++
 		w.branches(fr, [][]ast.Stmt{x.Body.List}, true)
+		fr.loops--
 	case *ast.RangeStmt:
 		w.expr(fr, x.X)
 		if k := w.kindOf(fr, x.X); k != "" {
@@ -496,7 +505,9 @@ func (w *cbWalker) stmt(fr *cbFrame, st ast.Stmt) {
 				fr.taint[id.Name] = k
 			}
 		}
+		fr.loops++
 		w.branches(fr, [][]ast.Stmt{x.Body.List}, true)
+		fr.loops--
 	case *ast.SwitchStmt:
 		if x.Init != nil {
 			w.stmt(fr, x.Init)
